@@ -5,9 +5,11 @@ demonstration fails with the change and passes without it. Then copies patch.dif
 demonstration and a meta.json skeleton to /verif/seeded/Cxx/."""
 import json, os, shutil, subprocess, sys
 pid = sys.argv[1]
-wt = f"/tmp/wt_{pid.lower()}"
-out = f"/tmp/seed_out/{pid}"
-dst = f"/verif/seeded/{pid}"
+rnd = sys.argv[2] if len(sys.argv) > 2 else "1"
+sfx = "" if rnd == "1" else rnd
+wt = f"/tmp/wt{sfx}_{pid.lower()}"
+out = f"/tmp/seed_out{sfx}/{pid}"
+dst = f"/verif/seeded/{pid}" + ("" if rnd == "1" else f"-{rnd}")
 env = {**os.environ, "CARGO_NET_OFFLINE": "true"}
 def sh(cmd, cwd=None, timeout=1800):
     p = subprocess.run(cmd, cwd=cwd, shell=isinstance(cmd, str), stdout=subprocess.PIPE, stderr=subprocess.STDOUT, text=True, env=env, timeout=timeout)
@@ -19,6 +21,9 @@ same = [l for l in diff.splitlines() if l.startswith(('+', '-')) and not l.start
 print("worktree diff == patch.diff:", same)
 def run_demo():
     """returns (kind, rc, tail)"""
+    if rnd != "1" and os.path.exists(f"{out}/demo.sh"):
+        rc, o = sh(["bash", f"{out}/demo.sh"], cwd=wt)
+        return "demo.sh", rc, o[-1500:]
     if os.path.exists(f"{out}/demo.sh") and (pid in ("C07", "C10", "C11") or not os.path.exists(f"{out}/demo_test.rs")):
         arg = wt if pid == "C10" else f"{wt}/target/debug/grcov"
         rc, o = sh(["bash", f"{out}/demo.sh", arg, wt], cwd=wt)
@@ -48,7 +53,7 @@ ok = same and rc_b == 0 and rc_t == 0 and rc_with != 0 and rc_without == 0
 print("CONFIRMED" if ok else "NOT CONFIRMED")
 if ok:
     os.makedirs(dst, exist_ok=True)
-    for f in ["patch.diff", "demo_test.rs", "demo.sh", "demo.diff", "notes.md"]:
+    for f in ["patch.diff", "demo_test.rs", "demo.sh", "demo.diff", "notes.md", "demo.c", "demo_output.txt"]:
         if os.path.exists(f"{out}/{f}"):
             shutil.copy(f"{out}/{f}", f"{dst}/{f}")
     meta_path = f"{dst}/meta.json"
@@ -57,6 +62,6 @@ if ok:
         "confirmed": {"worktree_diff_equals_patch": same, "builds": True, "baseline_tests": o_t.strip(),
                       "demo_rc_with_change": rc_with, "demo_rc_without_change": rc_without,
                       "commands": ["cargo build --offline", "python3 /verif/tools/baseline_check.py <worktree>",
-                                   "cargo test --offline --test <demo> | bash demo.sh", "git stash; rebuild; demo again; git stash pop"]}})
+                                   "cargo test --offline --test <demo> | bash demo.sh", "git apply -R patch.diff; rebuild; demo again; git apply patch.diff"]}})
     json.dump(meta, open(meta_path, "w"), indent=1)
 sys.exit(0 if ok else 1)
